@@ -1,0 +1,12 @@
+//go:build !verif
+
+// Package verifhook provides named instrumentation points for the external
+// verification harness. Without the `verif` build tag every function is an
+// empty, inlinable no-op.
+package verifhook
+
+// Point marks a named instrumentation point
+func Point(name string) {}
+
+// Flush writes hit counters (no-op without the verif tag)
+func Flush() {}
